@@ -108,6 +108,14 @@ def packU (width : Nat) (v : Int) : Except Exc (List Nat) :=
     .ok ((List.range width).reverse.map fun i => (v.toNat / 256 ^ i) % 256)
   else .error .structError
 
+/-- concatenation of byte strings that may each fail: the first failure wins -/
+def concatM : List (Except Exc (List Nat)) → Except Exc (List Nat)
+  | [] => .ok []
+  | x :: xs =>
+    match x with
+    | .error e => .error e
+    | .ok a => (concatM xs).map (a ++ ·)
+
 def beVal : List Nat → Nat
   | [] => 0
   | b :: bs => b * 256 ^ bs.length + beVal bs
@@ -157,11 +165,10 @@ def tlvValid (t : Tlv) : Bool :=
 
 /-- `OptionalParam.length` -/
 def tlvLength (t : Tlv) : Nat :=
-  match (tagKind t.tag), t.val with
-  | (0, w), _ => w
-  | (1, 1), .str s => s.length + 1
-  | (_, _), .str s => s.length
-  | _, _ => 0
+  if (tagKind t.tag).1 = 0 then (tagKind t.tag).2
+  else match t.val with
+    | .str s => if tagKind t.tag = (1, 1) then s.length + 1 else s.length
+    | _ => 0
 
 /-- `OptionalParam.tlv` -/
 def tlvBytes (t : Tlv) : Except Exc (List Nat) :=
@@ -171,9 +178,7 @@ def tlvBytes (t : Tlv) : Except Exc (List Nat) :=
       | .int v => v
       | .bool b => if b then 1 else 0
       | .str _ => 0
-    match packU 2 t.tag, packU 2 (tlvLength t), packU (tlvLength t) v with
-    | .ok a, .ok b, .ok c => .ok (a ++ b ++ c)
-    | _, _, _ => .error .structError
+    concatM [packU 2 t.tag, packU 2 (tlvLength t), packU (tlvLength t) v]
   | 1 =>
     match t.val with
     | .str s =>
@@ -181,16 +186,12 @@ def tlvBytes (t : Tlv) : Except Exc (List Nat) :=
       | .error e => .error e
       | .ok sb =>
         let body := if (tagKind t.tag).2 = 1 then sb ++ [0] else sb
-        match packU 2 t.tag, packU 2 (tlvLength t) with
-        | .ok a, .ok b => .ok (a ++ b ++ body)
-        | _, _ => .error .structError
+        concatM [packU 2 t.tag, packU 2 (tlvLength t), .ok body]
     | _ => .error .attributeError
   | _ =>
     match t.val with
     | .bool true =>
-      match packU 2 t.tag, packU 2 (tlvLength t) with
-      | .ok a, .ok b => .ok (a ++ b)
-      | _, _ => .error .structError
+      concatM [packU 2 t.tag, packU 2 (tlvLength t)]
     | _ => .ok []
 
 /-! ### messages -/
@@ -303,9 +304,7 @@ def Msg.status : Msg → Nat
 
 /-- `pack_header(pdu_len)` -/
 def packHeader (len : Nat) (m : Msg) : Except Exc (List Nat) :=
-  match packU 4 len, packU 4 m.command, packU 4 m.status, packU 4 m.seq with
-  | .ok a, .ok b, .ok c, .ok d => .ok (a ++ b ++ c ++ d)
-  | _, _, _, _ => .error .structError
+  concatM [packU 4 len, packU 4 m.command, packU 4 m.status, packU 4 m.seq]
 
 def cstr (s : List Nat) : Except Exc (List Nat) :=
   (encodeBounded 128 .strict s).map (· ++ [0])
@@ -330,71 +329,73 @@ def isSarTag (t : Int) : Bool :=
 /-- `esm_class & 0b01000000` (two's complement for negative Python ints) -/
 def udhi (esm : Int) : Bool := esm % 128 ≥ 64
 
-def concatM : List (Except Exc (List Nat)) → Except Exc (List Nat)
-  | [] => .ok []
-  | x :: xs =>
-    match x with
-    | .error e => .error e
-    | .ok a => (concatM xs).map (a ++ ·)
-
 /-- time field as bytes (ASCII of the SMPP time string) -/
 def timeField (t : Time.TimeObj) : Except Exc (List Nat) :=
   match Time.toSmpp t with
   | .error e => .error e
   | .ok s => cstr s
 
-/-- `SubmitSm.pdu()` / `DeliverSm.pdu()`: bytes and the encoding the message holds afterwards -/
-def smPdu (dflt : Enc) (wrap : Sm → Msg) (m : Sm) : Except Exc (List Nat × Option Enc) :=
-  -- text part
-  let textPart : Except Exc (List Nat × List Nat × Option Enc) :=
-    if m.encoded.isEmpty then
-      match smppEncode dflt m (if m.shortMessage.isEmpty then m.messagePayload else m.shortMessage) with
-      | .error e => .error e
-      | .ok (enc, encoding) =>
-        if enc.length > 254 ∧ ¬ m.shortMessage.isEmpty ∧ ¬ m.autoPayload then .error .valueError
-        else if enc.length > 254 ∨ ¬ m.messagePayload.isEmpty then
-          match packU 2 Gen.Tlv.messagePayload, packU 2 enc.length with
-          | .ok a, .ok b => .ok ([], a ++ b ++ enc, encoding)
-          | _, _ => .error .structError
-        else .ok (enc, [], encoding)
-    else .ok (m.encoded, [], m.encoding)
-  match textPart with
+/-- the text part of `pdu()`: (short_message octets, message_payload TLV, encoding afterwards) -/
+def smTextPart (dflt : Enc) (m : Sm) : Except Exc (List Nat × List Nat × Option Enc) :=
+  if m.encoded.isEmpty then
+    match smppEncode dflt m (if m.shortMessage.isEmpty then m.messagePayload else m.shortMessage) with
+    | .error e => .error e
+    | .ok (enc, encoding) =>
+      if enc.length > 254 ∧ ¬ m.shortMessage.isEmpty ∧ ¬ m.autoPayload then .error .valueError
+      else if enc.length > 254 ∨ ¬ m.messagePayload.isEmpty then
+        match concatM [packU 2 Gen.Tlv.messagePayload, packU 2 enc.length, .ok enc] with
+        | .ok tlv => .ok ([], tlv, encoding)
+        | .error e => .error e
+      else .ok (enc, [], encoding)
+  else .ok (m.encoded, [], m.encoding)
+
+/-- `SmppDataCoding[self.encoding].value if self.encoding else 0` -/
+def smDataCoding (encoding : Option Enc) : Except Exc Nat :=
+  match encoding with
+  | none => .ok 0
+  | some enc => if enc.name.isEmpty then .ok 0 else
+    match enc.dataCoding with
+    | some v => .ok v
+    | none => .error .keyError
+
+/-- the optional parameters that go on the wire (SAR ones are suppressed under UDHI) -/
+def smParams (m : Sm) : List Tlv :=
+  if udhi m.esmClass then m.optionalParams.filter (fun t => ¬ isSarTag t.tag) else m.optionalParams
+
+/-- the body expression of `pdu()`: mandatory fields in order, short_message, message_payload,
+    optional parameters -/
+def smLayout (m : Sm) (sm payloadTlv : List Nat) (dc : Nat) (paramBytes : List Nat) : Except Exc (List Nat) :=
+  concatM [
+    cstr m.serviceType,
+    packU 1 m.source.ton, packU 1 m.source.npi, cstr m.source.number,
+    packU 1 m.dest.ton, packU 1 m.dest.npi, cstr m.dest.number,
+    packU 1 m.esmClass, packU 1 m.protocolId, packU 1 m.priorityFlag,
+    timeField m.schedule, timeField m.validity,
+    packU 1 m.registeredDelivery, packU 1 m.replaceIfPresent,
+    packU 1 dc, packU 1 m.smDefaultMsgId, packU 1 sm.length,
+    .ok sm, .ok payloadTlv, .ok paramBytes]
+
+/-- body of `SubmitSm.pdu()` / `DeliverSm.pdu()` and the encoding the message holds afterwards
+    (evaluation order of the code: text, data_coding, optional parameters, body expression) -/
+def smBody (dflt : Enc) (m : Sm) : Except Exc (List Nat × Option Enc) :=
+  match smTextPart dflt m with
   | .error e => .error e
   | .ok (sm, payloadTlv, encoding) =>
-    let dataCoding : Except Exc Nat :=
-      match encoding with
-      | none => .ok 0
-      | some enc => if enc.name.isEmpty then .ok 0 else
-        match enc.dataCoding with
-        | some v => .ok v
-        | none => .error .keyError
-    match dataCoding with
+    match smDataCoding encoding with
     | .error e => .error e
     | .ok dc =>
-      let params := if udhi m.esmClass
-                    then m.optionalParams.filter (fun t => ¬ isSarTag t.tag) else m.optionalParams
-      -- the optional parameters are rendered before the body expression is evaluated
-      match concatM (params.map tlvBytes) with
+      match concatM ((smParams m).map tlvBytes) with
       | .error e => .error e
       | .ok paramBytes =>
-      let body := concatM [
-        cstr m.serviceType,
-        packU 1 m.source.ton, packU 1 m.source.npi, cstr m.source.number,
-        packU 1 m.dest.ton, packU 1 m.dest.npi, cstr m.dest.number,
-        (match packU 1 m.esmClass, packU 1 m.protocolId, packU 1 m.priorityFlag with
-         | .ok a, .ok b, .ok c => .ok (a ++ b ++ c) | _, _, _ => .error .structError),
-        timeField m.schedule, timeField m.validity,
-        (match packU 1 m.registeredDelivery, packU 1 m.replaceIfPresent with
-         | .ok a, .ok b => .ok (a ++ b) | _, _ => .error .structError),
-        (match packU 1 dc, packU 1 m.smDefaultMsgId, packU 1 sm.length with
-         | .ok a, .ok b, .ok c => .ok (a ++ b ++ c) | _, _, _ => .error .structError),
-        .ok sm, .ok payloadTlv, .ok paramBytes]
-      match body with
-      | .error e => .error e
-      | .ok b =>
-        match packHeader (16 + b.length) (wrap m) with
+        match smLayout m sm payloadTlv dc paramBytes with
         | .error e => .error e
-        | .ok h => .ok (h ++ b, encoding)
+        | .ok b => .ok (b, encoding)
+
+/-- `SubmitSm.pdu()` / `DeliverSm.pdu()`: header + body -/
+def smPdu (dflt : Enc) (wrap : Sm → Msg) (m : Sm) : Except Exc (List Nat × Option Enc) :=
+  match smBody dflt m with
+  | .error e => .error e
+  | .ok (b, encoding) => (packHeader (16 + b.length) (wrap m)).map fun h => (h ++ b, encoding)
 
 /-- `pdu()` of every class: bytes, and for SubmitSm/DeliverSm the encoding held afterwards -/
 def pdu (dflt : Enc) (m : Msg) : Except Exc (List Nat × Option Enc) :=
@@ -407,8 +408,7 @@ def pdu (dflt : Enc) (m : Msg) : Except Exc (List Nat × Option Enc) :=
     | .ok b => (packHeader (16 + b.length) m).map fun h => (h ++ b, none)
   | .bind _ b =>
     match concatM [cstr b.systemId, cstr b.password, cstr b.systemType,
-        (match packU 1 b.interfaceVersion, packU 1 b.addrTon, packU 1 b.addrNpi with
-         | .ok a, .ok x, .ok c => .ok (a ++ x ++ c) | _, _, _ => .error .structError),
+        packU 1 b.interfaceVersion, packU 1 b.addrTon, packU 1 b.addrNpi,
         cstr b.addressRange] with
     | .error e => .error e
     | .ok body => (packHeader (16 + body.length) m).map fun h => (h ++ body, none)
